@@ -7,6 +7,7 @@ import Driver.Util
   `C20 read <strict 0|1> <permit 0|1> <dv|fp> <cfg> <records> <x,y> <slicers>`   sliced reads `dataobj[slicer]`
        slicers = `|`-separated; a slicer = `;`-separated items `e` (Ellipsis) | `i<int>` | `s<a>,<b>,<c>` (`_` = None)
        output  = `ok r=<res>|<res>|…`, <res> = `[slab ids]` or `ERR:<class>`
+  `C20 spec <cfg> <records>`   spec predicate `complete` (records of complete label sets in key order) + H0∧H1
   `C20 volnos <slices>`    `vol_numbers`
   `C20 isfull <smax> <slices>`   `vol_is_full`
 
@@ -100,6 +101,12 @@ def handle : List String → String
   | ["load", st, pe, sc, cfg, recs] => runLoad false st pe sc cfg recs
   | ["loadorig", st, pe, sc, cfg, recs] => runLoad true st pe sc cfg recs
   | ["read", st, pe, sc, cfg, recs, xy, sls] => runRead st pe sc cfg recs xy sls
+  | ["spec", cfg, recs] =>
+      match parseCfg? cfg, parseRecs? recs with
+      | some cfg, some recs =>
+          "complete=" ++ showList (((stableSort (strictLe cfg) recs).filter (complete cfg recs)).map (·.payload)) ++
+          " hyps=" ++ (if truncHyps cfg recs then "1" else "0")
+      | _, _ => "bad-op"
   | ["volnos", sl] =>
       match parseIntList? sl with
       | some sl => showList (volNumbers sl)
